@@ -123,6 +123,7 @@ func StructConfigs(thorough bool, caches []string, formats []string) []*world.Co
 				sd = 6
 			}
 			cs = append(cs, SharedCacheSeeded(f0, sd))
+			cs = append(cs, SharedCacheSeededSplit(formats[len(formats)-1], sd))
 		}
 	}
 	// failing MakeRoot calls (a class of Store calls or one Marshal call fails) anywhere in the history
@@ -171,6 +172,30 @@ func SharedCacheSeeded(format string, d int) *world.Config {
 	c.MaxDepth = d
 	c.Name = fmt.Sprintf("seeded-shared-cache-two-trees/%s/depth%d", c.Name, d)
 	return c
+}
+
+// SharedCacheSeededSplit: the same start with another shape - [1 2 3] 8 [] 12 [] 16 at branch factor 4, keys 0
+// and 4 absent: inserting 4 splits a leaf that both trees hold through the cache, inserting 0 extends it.
+func SharedCacheSeededSplit(format string, d int) *world.Config {
+	c := world.IntCfg(4, []int{0, 1, 2, 3, 4, 8, 12, 16}, []interface{}{"a"}, "", format, "big")
+	for _, k := range []int{5, 6, 7, 1, 2, 3} {
+		c.Seed = append(c.Seed, world.Op{Kind: world.OpIns, K: k, V: 0})
+	}
+	c.Seed = append(c.Seed, world.Op{Kind: world.OpKeep, A: 0, B: 0}, world.Op{Kind: world.OpLoad, A: 1, B: 0})
+	c.TwoSlots = true
+	c.MaxDepth = d
+	c.Name = fmt.Sprintf("seeded-shared-cache-two-trees-one-wide-leaf/%s/depth%d", c.Name, d)
+	return c
+}
+
+// TaggedCached: v1marshaler with a tagged custom marshaler and UnmarshalerUsesRegisteredTypes, big cache, depth d.
+// (Its keys are written in the marshaler's own tagged form: only monitors that do not decode stored keys with
+// the plain codec run it - C01, C02, C05, C08, C13.)
+func TaggedCached(d, nvals int) *world.Config {
+	c := world.UintCfg(2, urange(1, 4), nvals, ref.FormatMarshaler, "big")
+	c.Tagged = true
+	c.Name = "tagged/" + c.Name
+	return depth(c, d)
 }
 
 // Seeded16: uint keys at the default branch factor 16, 20 of them inserted and persisted (height 1).
@@ -254,6 +279,7 @@ func C09(run *report.Run) {
 
 func c08Configs(thorough bool) []*world.Config {
 	cs := StructConfigs(thorough, []string{"none", "big"}, bothFormats)
+	cs = append(cs, TaggedCached(6, 2))
 	nl := world.UintCfg(2, urange(1, 5), 1, ref.FormatMarshaler, "none")
 	nl.MarshalNL = true
 	nl.Name = "json.Encoder-marshaler/" + nl.Name
@@ -320,6 +346,9 @@ func C05ExtraConfigs(thorough bool) []*world.Config {
 	nv := world.IntCfg(2, []int{1, 2, 3, 4, 8}, []interface{}{nil}, nil, B, "none")
 	nv.RegisteredTypes = true
 	cs = append(cs, nv)
+	// the custom-marshaler decoder with a cache: nodes decoded from the store sit in the cache (kept root, cache
+	// emptied, loaded again) and are then written below
+	cs = append(cs, TaggedCached(6, 2))
 	// pointer-typed values, a nil pointer among them, in both formats
 	cs = append(cs, world.IntCfg(2, []int{1, 2, 3, 4}, []interface{}{&world.SVal{Asdf: "a", Q: true}, (*world.SVal)(nil)}, &world.SVal{}, M, "none"))
 	cs = append(cs, world.IntCfg(4, []int{1, 2, 3, 4, 8}, []interface{}{(*world.TVal)(nil), &world.TVal{Tags: []string{"y", "z"}}}, &world.TVal{}, B, "none"))
@@ -362,6 +391,7 @@ func C13Configs(thorough bool) []*world.Config {
 	tgc.Tagged = true
 	tgc.Name = "tagged/" + tgc.Name
 	cfgs = append(cfgs, tgc)
+	cfgs = append(cfgs, TaggedCached(6, 2))
 	cfgs = append(cfgs, world.WithTwoSlots(world.UintCfg(2, ulist(1, 2, 3, 4), 1, B, "none"), 5))
 	cfgs = append(cfgs, world.WithTwoSlots(world.UintCfg(2, ulist(1, 2, 4), 1, M, "big"), 5))
 	cfgs = append(cfgs, world.WithFlushFaults(world.UintCfg(2, urange(1, 4), 1, B, "none")))
